@@ -85,9 +85,9 @@ MCNext ==
   \/ /\ FlushHdr /\ UNCHANGED <<cnt, hist, fails>>
   \/ /\ WalStep /\ UNCHANGED <<cnt, hist, fails>>
   \/ /\ cnt.cr < MaxCrash
-     /\ \E keep \in BOOLEAN :
-          /\ Crash(keep)
-          /\ H([a |-> "crash", at |-> pc.k, during |-> pc.after, i |-> pc.i, sub |-> pc.sub, keep |-> keep,
+     /\ \E keep \in BOOLEAN, part \in WalParts :
+          /\ Crash(keep, part)
+          /\ H([a |-> "crash", at |-> pc.k, during |-> pc.after, i |-> pc.i, sub |-> pc.sub, keep |-> keep, part |-> part,
                  written |-> SetToSortSeq(pc.orig \ pc.todo, <), orig |-> SetToSortSeq(pc.orig, <), hdr |-> FALSE])
      /\ Bump("cr") /\ UNCHANGED fails
   \/ /\ Recover /\ H([a |-> "recover"]) /\ UNCHANGED <<cnt, fails>>
